@@ -1315,3 +1315,324 @@ Proof.
   - intros -> I. apply str_in_In in I. rewrite I in H4. discriminate.
   - intros -> I. apply str_in_In in I. rewrite I in H5. discriminate.
 Qed.
+
+(* ------------------------------------------------------------------ *)
+(* converse direction: no defect => no error                           *)
+(* ------------------------------------------------------------------ *)
+Lemma has_prefix_split s : forall p, has_prefix s p = true -> exists x, s = p ++ x.
+Proof.
+  induction s as [|c s IH]; intros [|d p] H; simpl in H; try discriminate.
+  - exists []. reflexivity.
+  - exists (c :: s). reflexivity.
+  - apply andb_true_iff in H. destruct H as [H1 H2]. apply Z.eqb_eq in H1. subst d.
+    destruct (IH _ H2) as [x ->]. exists x. reflexivity.
+Qed.
+
+Lemma has_suffix_strip n s : has_suffix n s = true -> n = strip n s ++ s.
+Proof.
+  unfold has_suffix. intros H. destruct (has_prefix_split _ _ H) as [x E].
+  assert (Q : n = rev x ++ s).
+  { rewrite <- (rev_involutive n). rewrite E. rewrite rev_app_distr. rewrite rev_involutive. reflexivity. }
+  rewrite Q at 2. rewrite Q at 1. rewrite strip_app. reflexivity.
+Qed.
+
+Lemma has_fam_true x fs : has_fam x fs = true -> exists g, In g fs /\ f_name g = x.
+Proof.
+  unfold has_fam. destruct (find_fam x fs) as [g|] eqn:F; [|discriminate]. intros _. exists g. apply find_fam_some. exact F.
+Qed.
+
+Lemma collides_count bn bt : collides bn bt (bn ++ suf_count) = false -> (bt =? ty_summary) = false /\ (bt =? ty_histogram) = false.
+Proof.
+  unfold collides. rewrite str_eqb_refl. simpl. rewrite andb_true_r. intros H. apply orb_false_iff in H. destruct H as [H _].
+  apply orb_false_iff in H. exact H.
+Qed.
+
+Lemma collides_sum bn bt : collides bn bt (bn ++ suf_sum) = false -> (bt =? ty_summary) = false /\ (bt =? ty_histogram) = false.
+Proof.
+  unfold collides. rewrite str_eqb_refl. rewrite orb_true_r. rewrite andb_true_r. intros H. apply orb_false_iff in H. destruct H as [H _].
+  apply orb_false_iff in H. exact H.
+Qed.
+
+Lemma collides_bucket bn bt : collides bn bt (bn ++ suf_bucket) = false -> (bt =? ty_histogram) = false.
+Proof.
+  unfold collides. rewrite str_eqb_refl. rewrite andb_true_r. intros H. apply orb_false_iff in H. apply H.
+Qed.
+
+Lemma suffix_first_complete n fs :
+  (forall f, In f fs -> collides (f_name f) (f_type f) n = false) -> suffix_first n fs = None.
+Proof.
+  intros H. unfold suffix_first. destruct (name_without_suffix n) as [|c w] eqn:W; [reflexivity|].
+  destruct (find_fam (c :: w) fs) as [ex|] eqn:FF; [|reflexivity].
+  destruct (find_fam_some _ _ _ FF) as [Iex Nex]. specialize (H ex Iex). rewrite Nex in H.
+  unfold name_without_suffix in W.
+  destruct (has_suffix n suf_count) eqn:S1.
+  { apply has_suffix_strip in S1. rewrite W in S1. rewrite S1 in H. apply collides_count in H. destruct H as [A B]. rewrite A, B. reflexivity. }
+  destruct (has_suffix n suf_sum) eqn:S2.
+  { apply has_suffix_strip in S2. rewrite W in S2. rewrite S2 in H. apply collides_sum in H. destruct H as [A B]. rewrite A, B. reflexivity. }
+  destruct (has_suffix n suf_bucket) eqn:S3; [|discriminate].
+  pose proof (has_suffix_strip _ _ S3) as S4. rewrite W in S4. rewrite S4 in H. apply collides_bucket in H. rewrite H.
+  simpl. destruct (f_type ex =? ty_summary); reflexivity.
+Qed.
+
+Lemma csc_complete n ty fs :
+  (forall g, In g fs -> collides n ty (f_name g) = false) ->
+  (forall f, In f fs -> collides (f_name f) (f_type f) n = false) ->
+  check_suffix_collisions n ty fs = None.
+Proof.
+  intros H1 H2. unfold check_suffix_collisions. rewrite (suffix_first_complete _ _ H2).
+  destruct (has_fam (n ++ suf_count) fs) eqn:F1.
+  { destruct (has_fam_true _ _ F1) as (g & Ig & Ng). specialize (H1 g Ig). rewrite Ng in H1. apply collides_count in H1.
+    destruct H1 as [A B]. rewrite A, B. simpl. reflexivity. }
+  rewrite andb_false_r.
+  destruct (has_fam (n ++ suf_sum) fs) eqn:F2.
+  { destruct (has_fam_true _ _ F2) as (g & Ig & Ng). specialize (H1 g Ig). rewrite Ng in H1. apply collides_sum in H1.
+    destruct H1 as [A B]. rewrite A, B. simpl. reflexivity. }
+  rewrite andb_false_r.
+  destruct (has_fam (n ++ suf_bucket) fs) eqn:F3; [|rewrite andb_false_r; reflexivity].
+  destruct (has_fam_true _ _ F3) as (g & Ig & Ng). specialize (H1 g Ig). rewrite Ng in H1. apply collides_bucket in H1.
+  rewrite H1. reflexivity.
+Qed.
+
+(* the labels of a well-formed dto.Metric (before sorting) *)
+Definition labels_wf (lg : bool) (m : dmetric) : Prop :=
+  NoDup (map fst (d_labels m)) /\
+  Forall (fun l : label => check_label_name lg (fst l) = true /\ utf8_valid (snd l) = true /\
+                           (d_summary m = true -> fst l <> quantile_label) /\
+                           (d_hist m = true -> fst l <> bucket_label)) (d_labels m).
+
+Lemma check_labels_complete lg s h ls : forall seen,
+  NoDup (map fst ls) -> (forall n, In n (map fst ls) -> ~ In n seen) ->
+  Forall (fun l : label => check_label_name lg (fst l) = true /\ utf8_valid (snd l) = true /\
+                           (s = true -> fst l <> quantile_label) /\ (h = true -> fst l <> bucket_label)) ls ->
+  check_labels lg s h seen ls = None.
+Proof.
+  induction ls as [|[n v] r IH]; intros seen N S F; [reflexivity|].
+  simpl. inversion N; subst. inversion F; subst. simpl in *. destruct H3 as (A1 & A2 & A3 & A4).
+  assert (E1 : str_in n seen = false) by (apply str_in_false; apply S; left; reflexivity).
+  rewrite E1, A1, A2. simpl.
+  assert (E3 : s && str_eqb n quantile_label = false).
+  { destruct s; [|reflexivity]. simpl. apply str_eqb_neq. apply A3. reflexivity. }
+  assert (E4 : h && str_eqb n bucket_label = false).
+  { destruct h; [|reflexivity]. simpl. apply str_eqb_neq. apply A4. reflexivity. }
+  rewrite E3, E4. apply IH; [assumption| |assumption].
+  intros x Ix [Q|Q]; [subst x; contradiction|]. apply (S x); [right; exact Ix|exact Q].
+Qed.
+
+(* the conditions under which one processMetric call succeeds *)
+Lemma process_success lg reg e fs keys :
+  ds_err (e_desc e) = false -> e_write_err e = false -> labels_wf lg (e_dto e) ->
+  match find_fam (e_name e) fs with
+  | Some mf => f_help mf = e_help e /\ first_type (e_dto e) = Some (f_type mf)
+  | None => exists ty, first_type (e_dto e) = Some ty /\ check_suffix_collisions (e_name e) ty fs = None
+  end ->
+  ~ In (key_of (emitted_as e)) keys ->
+  match reg with
+  | Some ids => z_in (ds_id (e_desc e)) ids = true /\ check_desc_consistency (e_help e) (snd (emitted_as e)) (e_desc e) = None
+  | None => True
+  end ->
+  snd (process_metric lg reg e (fs, keys)) = None.
+Proof.
+  intros DE WE [LN LF] FAM KEY REG. unfold process_metric. rewrite DE, WE. unfold e_name, e_help in *.
+  assert (CL : check_labels lg (d_summary (e_dto e)) (d_hist (e_dto e)) [] (d_labels (e_dto e)) = None).
+  { apply check_labels_complete; [exact LN|intros n _ []|exact LF]. }
+  assert (FIN : forall fname fhelp ftype fs',
+            fname = ds_name (e_desc e) -> fhelp = ds_help (e_desc e) -> payload_for ftype (e_dto e) = Some true ->
+            snd (finish_metric lg reg (e_desc e) fname fhelp ftype (e_dto e) fs' keys) = None).
+  { intros fname fhelp ftype fs' -> -> P. unfold finish_metric, check_metric_consistency. rewrite P, CL.
+    rewrite sort_labels_isort.
+    change (metric_key (ds_name (e_desc e)) (set_labels (e_dto e) (isort label_lt (d_labels (e_dto e)))))
+      with (key_of (emitted_as e)).
+    apply str_in_false in KEY. rewrite KEY.
+    destruct reg as [ids|]; [|reflexivity]. destruct REG as [R1 R2]. rewrite R1. simpl.
+    unfold emitted_as in R2. simpl in R2. rewrite R2. reflexivity. }
+  destruct (find_fam (ds_name (e_desc e)) fs) as [mf|] eqn:FF.
+  - destruct FAM as [HE FT]. rewrite HE, str_eqb_refl. simpl. rewrite (first_type_payload _ _ FT).
+    rewrite <- HE. apply FIN; [apply (find_fam_some _ _ _ FF)|exact HE|apply first_type_payload; exact FT].
+  - destruct FAM as (ty & FT & CS). rewrite FT, CS. apply FIN; [reflexivity|reflexivity|apply first_type_payload; exact FT].
+Qed.
+
+Lemma cmc_keys lg fname ftype m keys m' keys' :
+  check_metric_consistency lg fname ftype m keys = inr (m', keys') ->
+  m' = set_labels m (isort label_lt (d_labels m)) /\ keys' = metric_key fname m' :: keys.
+Proof.
+  unfold check_metric_consistency.
+  destruct (match payload_for ftype m with Some false => true | _ => false end); [discriminate|].
+  destruct (check_labels lg (d_summary m) (d_hist m) [] (d_labels m)); [discriminate|].
+  rewrite sort_labels_isort.
+  destruct (str_in (metric_key fname (set_labels m (isort label_lt (d_labels m)))) keys); [discriminate|].
+  intros H. inversion H. auto.
+Qed.
+
+Lemma finish_keys lg reg d fname fhelp ftype m fs keys st' o :
+  finish_metric lg reg d fname fhelp ftype m fs keys = (st', o) ->
+  forall k, In k (snd st') -> k = metric_key fname (set_labels m (isort label_lt (d_labels m))) \/ In k keys.
+Proof.
+  unfold finish_metric. destruct (check_metric_consistency lg fname ftype m keys) as [e|[m' keys']] eqn:C.
+  - intros H; inversion H; subst. simpl. auto.
+  - destruct (cmc_keys _ _ _ _ _ _ _ C) as [-> ->].
+    assert (Q : forall k, In k (metric_key fname (set_labels m (isort label_lt (d_labels m))) :: keys) ->
+                k = metric_key fname (set_labels m (isort label_lt (d_labels m))) \/ In k keys).
+    { intros k [I|I]; [left; symmetry; exact I|right; exact I]. }
+    destruct reg as [ids|].
+    + destruct (negb (z_in (ds_id d) ids)); [intros H; inversion H; subst; exact Q|].
+      destruct (check_desc_consistency fhelp _ d); intros H; inversion H; subst; exact Q.
+    + intros H; inversion H; subst; exact Q.
+Qed.
+
+Lemma process_keys lg reg e st st' o :
+  process_metric lg reg e st = (st', o) ->
+  forall k, In k (snd st') -> k = key_of (emitted_as e) \/ In k (snd st).
+Proof.
+  destruct st as [fs keys]. unfold process_metric. intros H.
+  destruct (ds_err (e_desc e)); [inversion H; subst; auto|].
+  destruct (e_write_err e); [inversion H; subst; auto|].
+  destruct (find_fam (ds_name (e_desc e)) fs) as [mf|] eqn:FF.
+  - destruct (negb (str_eqb (f_help mf) (ds_help (e_desc e)))); [inversion H; subst; auto|].
+    destruct (payload_for (f_type mf) (e_dto e)) as [[|]|]; try (inversion H; subst; auto; fail).
+    destruct (find_fam_some _ _ _ FF) as [_ NM]. rewrite NM in H. exact (finish_keys _ _ _ _ _ _ _ _ _ _ _ H).
+  - destruct (first_type (e_dto e)) as [ty|]; [|inversion H; subst; auto].
+    destruct (check_suffix_collisions (ds_name (e_desc e)) ty fs); [inversion H; subst; auto|].
+    exact (finish_keys _ _ _ _ _ _ _ _ _ _ _ H).
+Qed.
+
+(* well-behaved emitted metrics: valid Desc, successful Write, well-formed labels, one help and one leading payload type
+   per name, pairwise distinct (name, labels, timestamp) fingerprints, no suffix collision between the names, and on a
+   pedantic registry consistent with a registered descriptor *)
+Definition wellbehaved (lg ped : bool) (ids : list Z) (arr : list emitted) : Prop :=
+  (forall e, In e arr ->
+     ds_err (e_desc e) = false /\ e_write_err e = false /\ e_name e <> [] /\ labels_wf lg (e_dto e) /\
+     first_type (e_dto e) <> None /\
+     (ped && e_checked e = true ->
+        z_in (ds_id (e_desc e)) ids = true /\
+        check_desc_consistency (e_help e) (snd (emitted_as e)) (e_desc e) = None)) /\
+  (forall e e', In e arr -> In e' arr -> e_name e = e_name e' ->
+     e_help e = e_help e' /\ first_type (e_dto e) = first_type (e_dto e')) /\
+  NoDup (map key_of (map emitted_as arr)) /\
+  (forall e e' t, In e arr -> In e' arr -> first_type (e_dto e) = Some t -> collides (e_name e) t (e_name e') = false).
+
+Lemma run_wellbehaved lg ped ids suf : forall pre st st' errs,
+  wellbehaved lg ped ids (pre ++ suf) -> inv lg st ->
+  (forall h, In h (map hdr3 (fst st)) ->
+     exists e ty, In e pre /\ h = (e_name e, e_help e, ty) /\ first_type (e_dto e) = Some ty) ->
+  (forall k, In k (snd st) -> In k (map key_of (map emitted_as pre))) ->
+  run lg ped ids suf st = (st', errs) -> errs = [].
+Proof.
+  induction suf as [|e r IH]; intros pre st st' errs WB I CR KS H; simpl in H.
+  - inversion H. reflexivity.
+  - destruct WB as (W1 & W2 & W3 & W4).
+    assert (Ie : In e (pre ++ e :: r)) by (apply in_or_app; right; left; reflexivity).
+    assert (Ipre : forall c, In c pre -> In c (pre ++ e :: r)) by (intros c Ic; apply in_or_app; left; exact Ic).
+    destruct (W1 e Ie) as (DE & WE & NE & LW & FT & PED).
+    destruct st as [fs keys]. simpl in CR, KS.
+    assert (OK : snd (process_metric lg (reg_for ped ids e) e (fs, keys)) = None).
+    { apply process_success; try assumption.
+      - destruct (find_fam (e_name e) fs) as [mf|] eqn:FF.
+        + destruct (find_fam_some _ _ _ FF) as [Imf Nmf].
+          destruct (CR (hdr3 mf) (in_map hdr3 _ _ Imf)) as (c & ty & Ic & Ec & Fc).
+          unfold hdr3 in Ec. inversion Ec.
+          destruct (W2 c e (Ipre c Ic) Ie) as [Q1 Q2]; [congruence|]. split; [congruence|]. rewrite <- Q2. rewrite H3. exact Fc.
+        + destruct (first_type (e_dto e)) as [ty|] eqn:FTe; [|contradiction]. exists ty. split; [reflexivity|].
+          apply csc_complete.
+          * intros g Ig. destruct (CR (hdr3 g) (in_map hdr3 _ _ Ig)) as (c & tc & Ic & Ec & Fc).
+            unfold hdr3 in Ec. inversion Ec. rewrite H1. apply (W4 e c ty Ie (Ipre c Ic) FTe).
+          * intros f If. destruct (CR (hdr3 f) (in_map hdr3 _ _ If)) as (c & tc & Ic & Ec & Fc).
+            unfold hdr3 in Ec. inversion Ec. rewrite H1, H3. apply (W4 c e tc (Ipre c Ic) Ie Fc).
+      - intros K. apply KS in K. rewrite !map_app in W3. simpl in W3. apply NoDup_remove_2 in W3.
+        apply W3. apply in_or_app. left. exact K.
+      - unfold reg_for. destruct (ped && e_checked e) eqn:PC; [apply PED; reflexivity|exact Logic.I]. }
+    destruct (process_metric lg (reg_for ped ids e) e (fs, keys)) as [st1 o] eqn:P. simpl in OK. subst o.
+    destruct (run lg ped ids r st1) as [st2 errs'] eqn:R. inversion H; subst st2 errs. simpl.
+    destruct (process_effect _ _ _ _ _ _ I (fun _ => NE) P) as [I1 _].
+    destruct (process_hdr _ _ _ _ _ _ P) as [S1 _].
+    apply (IH (pre ++ [e]) st1 st' errs'); [rewrite <- app_assoc; simpl; exact (conj W1 (conj W2 (conj W3 W4)))|exact I1| |  |exact R].
+    + intros h Ih. simpl in S1. destruct S1 as [Q|(ty & Q & FTy)]; rewrite Q in Ih.
+      * destruct (CR h Ih) as (c & tc & Ic & Ec & Fc). exists c, tc. split; [apply in_or_app; left; exact Ic|]. split; assumption.
+      * apply in_app_or in Ih. destruct Ih as [Ih|[Ih|[]]].
+        -- destruct (CR h Ih) as (c & tc & Ic & Ec & Fc). exists c, tc. split; [apply in_or_app; left; exact Ic|]. split; assumption.
+        -- exists e, ty. split; [apply in_or_app; right; left; reflexivity|]. split; [symmetry; exact Ih|exact FTy].
+    + intros k Ik. destruct (process_keys _ _ _ _ _ _ P k Ik) as [Q|Q].
+      * subst k. rewrite !map_app. apply in_or_app. right. left. reflexivity.
+      * rewrite !map_app. apply in_or_app. left. apply KS. exact Q.
+Qed.
+
+Lemma wellbehaved_names_ok lg ped ids arr : wellbehaved lg ped ids arr -> names_ok arr.
+Proof. intros (W1 & _) e I _. destruct (W1 e I) as (_ & _ & NE & _). exact NE. Qed.
+
+Lemma gather_wellbehaved_lemma lg ped ids arr :
+  wellbehaved lg ped ids arr ->
+  snd (gather lg ped ids arr) = [] /\
+  Permutation (all_metrics (fst (gather lg ped ids arr))) (map emitted_as arr).
+Proof.
+  intros WB.
+  assert (E : snd (gather lg ped ids arr) = []).
+  { unfold gather. destruct (run lg ped ids arr ([], [])) as [st errs] eqn:R. simpl.
+    apply (run_wellbehaved lg ped ids arr [] ([], []) st errs); [exact WB|apply inv_empty|intros h []|intros k []|exact R]. }
+  split; [exact E|]. apply gather_all_present_lemma; [eapply wellbehaved_names_ok; exact WB|exact E].
+Qed.
+
+(* a satisfiable instance *)
+Lemma wellbehaved_example_lemma : wellbehaved false false [] (map ex_e [ex_a; ex_b]).
+Proof.
+  unfold wellbehaved. split; [|split; [|split]].
+  - intros e [<-|[<-|[]]]; (split; [reflexivity|]); (split; [reflexivity|]); (split; [discriminate|]);
+      (split; [split; [repeat constructor; intros []|repeat constructor; simpl; discriminate]|]); (split; [discriminate|]); discriminate.
+  - intros e e' [<-|[<-|[]]] [<-|[<-|[]]] _; split; reflexivity.
+  - vm_compute. repeat constructor; simpl; intros H; repeat (destruct H as [H|H]; try discriminate); exact H.
+  - intros e e' t [<-|[<-|[]]] [<-|[<-|[]]] H; inversion H; subst; vm_compute; reflexivity.
+Qed.
+
+(* ------------------------------------------------------------------ *)
+(* the boolean complete_or_reported checker (applied by the harness to the implementation's output) *)
+(* ------------------------------------------------------------------ *)
+Lemma dmetric_eqb_eq a b : dmetric_eqb a b = true <-> a = b.
+Proof.
+  destruct a as [l1 g1 c1 s1 u1 h1 t1 v1], b as [l2 g2 c2 s2 u2 h2 t2 v2]. unfold dmetric_eqb. simpl. split; intros H.
+  - repeat (apply andb_true_iff in H; destruct H as [H ?]).
+    apply labels_eqb_eq in H. apply Bool.eqb_prop in H6, H5, H4, H3, H2. apply optz_eqb_eq in H1. apply Z.eqb_eq in H0.
+    subst. reflexivity.
+  - inversion H; subst. rewrite (proj2 (labels_eqb_eq l2 l2) eq_refl), !Bool.eqb_reflx, (proj2 (optz_eqb_eq t2 t2) eq_refl), Z.eqb_refl.
+    reflexivity.
+Qed.
+
+Lemma nm_eqb_eq a b : nm_eqb a b = true <-> a = b.
+Proof.
+  destruct a as [n m], b as [n' m']. unfold nm_eqb. simpl. split; intros H.
+  - apply andb_true_iff in H. destruct H as [H1 H2]. apply str_eqb_eq in H1. apply dmetric_eqb_eq in H2. subst. reflexivity.
+  - inversion H; subst. rewrite str_eqb_refl. apply dmetric_eqb_eq. reflexivity.
+Qed.
+
+Section Multiset.
+  Context {A : Type} (eqb : A -> A -> bool) (eqb_eq : forall a b, eqb a b = true <-> a = b).
+
+  Lemma remove_first_in x l : In x l -> exists l', remove_first eqb x l = Some l' /\ Permutation l (x :: l').
+  Proof.
+    induction l as [|y r IH]; intros I; [contradiction|]. simpl.
+    destruct (eqb x y) eqn:E.
+    - apply eqb_eq in E. subst y. exists r. split; reflexivity.
+    - destruct I as [I|I]; [subst y; rewrite (proj2 (eqb_eq x x) eq_refl) in E; discriminate|].
+      destruct (IH I) as (l' & R & P). rewrite R. exists (y :: l'). split; [reflexivity|].
+      rewrite P. apply perm_swap.
+  Qed.
+
+  Lemma sub_multiset_perm a : forall b rest, Permutation b (a ++ rest) ->
+    exists rest', sub_multiset eqb a b = Some rest' /\ Permutation rest rest'.
+  Proof.
+    induction a as [|x a IH]; intros b rest P; simpl.
+    - exists b. split; [reflexivity|symmetry; exact P].
+    - assert (I : In x b) by (eapply Permutation_in; [symmetry; exact P|left; reflexivity]).
+      destruct (remove_first_in x b I) as (b' & R & Pb). rewrite R. apply IH.
+      apply (Permutation_cons_inv (a := x)). rewrite <- Pb. exact P.
+  Qed.
+End Multiset.
+
+Lemma gather_checker_lemma lg ped ids arr :
+  names_ok arr ->
+  complete_or_reported arr (fst (gather lg ped ids arr)) (length (snd (gather lg ped ids arr))) = true.
+Proof.
+  intros NO. destruct (gather_complete_lemma lg ped ids arr NO) as (acc & rej & P1 & P2 & L).
+  unfold complete_or_reported.
+  assert (P : Permutation (map emitted_as arr) (all_metrics (fst (gather lg ped ids arr)) ++ map emitted_as rej)).
+  { rewrite P2. rewrite <- map_app. apply Permutation_map. exact P1. }
+  destruct (sub_multiset_perm nm_eqb nm_eqb_eq _ _ _ P) as (rest' & S & PR). rewrite S.
+  apply Nat.eqb_eq. rewrite <- L. rewrite <- (Permutation_length PR). apply map_length.
+Qed.
